@@ -132,6 +132,29 @@ def StablePub (k0 : String) (rest : List String) (pub : Dict) : Prop :=
   | some v => LeafPath v rest
   | none => keyOf k0 rest ∉ leafKeysKv none pub
 
+/-! the hypotheses are decidable -/
+instance (α : Type) (d : List (String × α)) : Decidable (UniqueKeys d) := by unfold UniqueKeys; exact inferInstance
+
+def LeafPath.dec : (v : Val) → (ks : List String) → Decidable (LeafPath v ks)
+  | v, [] => by unfold LeafPath; exact inferInstance
+  | .obj kv, k :: rest =>
+      match hg : get? kv k with
+      | some w =>
+        have : Decidable (LeafPath w rest) := LeafPath.dec w rest
+        decidable_of_iff (UniqueKeys kv ∧ LeafPath w rest) (by simp [LeafPath, hg])
+      | none => isFalse (by simp [LeafPath, hg])
+  | .null, _ :: _ => isFalse (by simp [LeafPath])
+  | .bool _, _ :: _ => isFalse (by simp [LeafPath])
+  | .num _, _ :: _ => isFalse (by simp [LeafPath])
+  | .str _, _ :: _ => isFalse (by simp [LeafPath])
+  | .list _, _ :: _ => isFalse (by simp [LeafPath])
+
+instance (v : Val) (ks : List String) : Decidable (LeafPath v ks) := LeafPath.dec v ks
+
+instance (k0 : String) (rest : List String) (pub : Dict) : Decidable (StablePub k0 rest pub) := by
+  unfold StablePub
+  cases get? pub k0 <;> exact inferInstance
+
 theorem getPath_of_get? (d : Dict) (k0 : String) (rest : List String) :
     getPath d k0 rest = match get? d k0 with
       | some v => getPathVal v rest
